@@ -321,8 +321,34 @@ def run(prog: Program, chk: Check):
     # ---- R7 readiness is polled for every connection, in the round in which it is used ---------------------------------
     R7 = chk.rule("C01-R7", "wlist is refreshed from a write-select over every connection before a round's frames are serviced", 2,
                   "a connection left out of the poll is treated as 'cannot accept data' although it can: the message is dropped for a subscribed, writable module")
-    sel = [n for n in walk_local(runf.node) if isinstance(n, ast.Assign) and isinstance(n.value, ast.Call) and norm(n.value.func) == "select.select"
-           and any("self.wlist" in norm(t) for t in n.targets)]
+    # the select whose writable result becomes self.wlist: directly (`_, self.wlist, _ = select.select(...)`) or through a
+    # local (`_, w, _ = select.select(...)` ... `self.wlist.update(w)` / `self.wlist = frozenset(w)`)
+    sel = []
+    refresh = {}
+    for n in walk_local(runf.node):
+        if not (isinstance(n, ast.Assign) and isinstance(n.value, ast.Call) and norm(n.value.func) == "select.select" and len(n.targets) == 1):
+            continue
+        t = n.targets[0]
+        wt = t.elts[1] if isinstance(t, (ast.Tuple, ast.List)) and len(t.elts) == 3 else None
+        if wt is None:
+            continue
+        if norm(wt) == "self.wlist":
+            sel.append(n)
+            refresh[id(n)] = n
+        elif isinstance(wt, ast.Name):
+            for m_ in walk_local(runf.node):
+                into = None
+                if isinstance(m_, ast.Assign) and len(m_.targets) == 1 and norm(m_.targets[0]) in ("self.wlist", "self.wlist[:]"):
+                    v_ = m_.value
+                    if isinstance(v_, ast.Call) and isinstance(v_.func, ast.Name) and v_.func.id in ("set", "frozenset", "list", "tuple") and len(v_.args) == 1:
+                        v_ = v_.args[0]
+                    into = v_
+                elif isinstance(m_, ast.Expr) and isinstance(m_.value, ast.Call) and norm(m_.value.func) in ("self.wlist.update", "self.wlist.extend") and len(m_.value.args) == 1:
+                    into = m_.value.args[0]
+                if into is not None and isinstance(into, ast.Name) and into.id == wt.id and m_.lineno > n.lineno:
+                    sel.append(n)
+                    refresh[id(n)] = m_
+                    break
     okp = len(sel) == 1
     src_txt = ""
     if okp:
@@ -344,8 +370,9 @@ def run(prog: Program, chk: Check):
     R7.decide(okp, fkey(runf, "write-select-covers-all"), where(runf, sel[0] if sel else runf.node), "write-select polls self.modules (every connection)",
               f"the write-readiness poll covers only [{src_txt}] instead of every connection in self.modules")
     if sel and pmn:
-        seln = [n for n in rg.nodes if n.ast is sel[0]]
-        tests = [n for n in rg.nodes if n.kind == "test" and any(e.dst == seln[0].id for e in rg.succ[n.id])] if seln else []
+        seln = [n for n in rg.nodes if n.ast is refresh[id(sel[0])]]
+        selc = [n for n in rg.nodes if n.ast is sel[0]]
+        tests = [n for n in rg.nodes if n.kind == "test" and any(e.dst == selc[0].id for e in rg.succ[n.id])] if selc else []
         # the poll may only be skipped when there is nothing to service: its guard is the truthiness of the serviced list
         svc = next((a for a in ancestors(pmn[0].ast) if isinstance(a, ast.For)), None)
         L_ = norm(svc.iter) if svc is not None else "rlist"
